@@ -3,6 +3,7 @@ import ZenonVerif.Lemmas.KvLogic
 import ZenonVerif.Lemmas.KvOrder
 import ZenonVerif.Lemmas.LdbInv
 import ZenonVerif.Lemmas.KvChanges
+import ZenonVerif.Lemmas.ViewScan
 /-
 C07 — versioned store: a view at commit X shows exactly the state as of X. Property theorems only.
 (C06-T2 `rollback_exact` lives in Props/C06.lean.)
@@ -330,6 +331,61 @@ theorem patches_replay {s : Ldb} {h : List Ver} (hr : Reach s h) :
 
 example : edChanges (edApply [] [Op.put [5] [1], Op.del [3], Op.put [5] [], Op.put [4] [9]]) =
     [Op.del [3], Op.put [4] [9], Op.put [5] []] := by decide
+
+
+/-! ### scans through a view that has its own writes (what block processing uses) -/
+
+/-- the driver's view tree, first-level view: its reads and scans are `layerGet` / `layerRawScan` -/
+theorem view_tree_layer (vs : Views) (n : String) (top : Raw) (root : Root)
+    (hn : findNode vs n = some (.layer top none root)) :
+    (∀ k, getV vs n k = layerGet top root k) ∧ (∀ p, scanV vs n p = edEntries (layerRawScan top root p)) := by
+  constructor
+  · intro k; simp only [getV, rawGetV, hn, layerGet, layerRawGet]; cases rget top k <;> rfl
+  · intro p; simp only [scanV, rawScanV, hn, layerRawScan]
+
+/-- ordered scan through a view with private writes over any root: the key-ordered list of exactly the entries the
+    view reads under the prefix — over a historical root, minus the keys not written by the view itself that
+    hold the empty value (F3b). -/
+theorem layer_scan_spec_partial {top : Raw} (hs : Sorted top) {root : Root} (hw : root.WF) (p : Bytes) :
+    OrderedEntries (edEntries (layerRawScan top root p))
+      (fun k v => isPrefix p k = true ∧ layerGet top root k = some v ∧
+        ((rget top k).isSome = true ∨ root.isHist = false ∨ v ≠ [])) :=
+  layer_scan_entries hs hw p
+
+/-- full strength over the frontier snapshot: scan = key-ordered entries of the view's reads -/
+theorem frontier_layer_scan_spec {top base : Raw} (hs : Sorted top) (hb : Sorted base) (p : Bytes) :
+    OrderedEntries (edEntries (layerRawScan top (Root.front base) p))
+      (fun k v => isPrefix p k = true ∧ layerGet top (Root.front base) k = some v) := by
+  have h := layer_scan_entries hs (root := Root.front base) hb p
+  refine ⟨h.1, fun k v => (h.2 k v).trans ?_⟩
+  simp [Root.isHist]
+
+/-- manager level: a view opened on the frontier of a reachable state that then received the writes `ops` reads
+    `applyP (frontier content) ops` on every key, and every ordered prefix scan of it is the key-ordered list of
+    exactly those entries (no exception at the frontier). -/
+theorem frontier_view_refines {s : Ldb} {h : List Ver} (hr : Reach s h) (ops : Patch) :
+    ∃ r, s.get s.frontierId = some r ∧
+      (∀ k, layerGet (edApply [] ops) r k = applyP (topStore h) ops k) ∧
+      (∀ p, OrderedEntries (edEntries (layerRawScan (edApply [] ops) r p))
+        (fun k v => isPrefix p k = true ∧ applyP (topStore h) ops k = some v)) := by
+  obtain ⟨r, hg, hget, hshape⟩ := hr.inv.inv0.get_frontier
+  have hreads : ∀ k, layerGet (edApply [] ops) r k = applyP (topStore h) ops k := by
+    intro k
+    have := changes_replay_layer (top_layer_sorted ops) r k
+    rw [hget] at this
+    rw [changes_of_writes] at this
+    rw [this]
+    simp only [layerGet, layerRawGet]
+    cases rget (edApply [] ops) k <;> rfl
+  have hw : r.WF ∧ r.isHist = false := by
+    rcases hshape with ⟨rfl, _⟩ | rfl
+    · exact ⟨trivial, rfl⟩
+    · exact ⟨hr.inv.inv0.sorted, rfl⟩
+  refine ⟨r, hg, hreads, ?_⟩
+  intro p
+  have hsc := layer_scan_entries (top_layer_sorted ops) hw.1 p
+  refine ⟨hsc.1, fun k v => (hsc.2 k v).trans ?_⟩
+  simp only [hreads, hw.2, true_or, or_true, and_true]
 
 /-- non-vacuity: a concrete two-commit history; the view at the first version hides the later write and deletion -/
 example :
